@@ -330,7 +330,7 @@ def gate_opt(ctx):
     ctx.floor(R, "catalog open_stream sites", n, 3)
 
 
-def ins1(ctx, fns=(OPEN, "msi::internal::query::Insert::exec")):
+def ins1(ctx, fns=(OPEN, "msi::internal::query::Insert::exec"), floor=6):
     prog = ctx.prog
     R = "INS-1"
     ctx.rule(R, "no silent overwrite: every insert on a map or set whose returned Option/bool is discarded is preceded, on every path, by a membership test on the same "
@@ -373,7 +373,7 @@ def ins1(ctx, fns=(OPEN, "msi::internal::query::Insert::exec")):
                 continue
             ctx.violation(R, inst, "the result of inserting into %s is discarded and no membership test on the same collection dominates it: a repeated key silently replaces "
                           "the earlier entry" % vname, f.loc(t["sp"]), fn=fname, key="%s|%s|%s" % (R, short(fname), vname))
-    ctx.floor(R, "discarded map/set inserts examined", total, 6)
+    ctx.floor(R, "discarded map/set inserts examined", total, floor)
 
 
 def _coll_name(f, t):
